@@ -142,13 +142,21 @@ func (ex *Exec) checkObligation(cond *Term, kind, msg string, pos token.Pos) {
 	ex.w.stats.Obligations++
 	ps := ex.posStr(pos)
 	ob := Obligation{Kind: kind, Msg: msg, Pos: ps, Path: append([]Decision{}, ex.decs...)}
+	if kind == "assert-writelog" {
+		ob.Events = ex.lastEvents
+		ob.Choices = map[string]int64{}
+		for k, v := range ex.choices {
+			ob.Choices[k] = v
+		}
+	}
+	isAssert := kind == "assert" || kind == "assert-writelog"
 	neg := ex.tb.Not(cond)
 	if os.Getenv("GOSYM_DEBUG_ASSERT") != "" && !cond.IsConst() {
 		fmt.Fprintf(os.Stderr, "DEBUG-ASSERT %s: size=%d %s\n", msg, cond.size, cond.String())
 	}
 	if neg.IsConst() && neg.c == 0 {
 		ob.Result, ob.Known = "holds", "trivial"
-		if kind == "assert" {
+		if isAssert {
 			ex.oblig = append(ex.oblig, ob)
 		}
 		return
@@ -195,13 +203,16 @@ func (ex *Exec) checkObligation(cond *Term, kind, msg string, pos token.Pos) {
 			}
 		}
 	}
-	if kind == "assert" || ob.Result != "holds" {
+	if isAssert || ob.Result != "holds" {
 		ex.oblig = append(ex.oblig, ob)
 	} else {
 		ex.autoHeld++
 	}
 	// continue on the side where cond holds, if any
 	if cond.IsConst() {
+		if kind == "assert-writelog" {
+			return // keep going: the remaining write-log assertions are evaluated too
+		}
 		if kind == "assert" {
 			panic(stopf(StopAssume, "assertion violated on every input of this path: %s", msg))
 		}
@@ -209,7 +220,7 @@ func (ex *Exec) checkObligation(cond *Term, kind, msg string, pos token.Pos) {
 	}
 	if r != Unsat || len(preds) > 0 {
 		if ex.feasible(cond) == Unsat {
-			if kind == "assert" {
+			if isAssert {
 				panic(stopf(StopAssume, "assertion violated on every input of this path: %s", msg))
 			}
 			panic(goPanic{msg: kind + ": " + msg})
